@@ -800,6 +800,42 @@ pub fn finalize_with_monitors(w: &mut World, actor: &str, psbt: &mut Psbt, v: u6
             }
         }
     }
+    // The free-function front ends (`psbt::finalize_mall`, and the deprecated `psbt::finalize`) run
+    // BIP174's sanity rules first (every ECDSA signature carries the announced sighash type). When
+    // the PSBT obeys those rules (judged here, not by the library) and the method variant has just
+    // finalised every input, the free function has the same material and must do the same.
+    if (w.mon.on("C02") || w.mon.on("C14")) && !w.mon.corruption && matches!(v % 6, 0 | 1) && !any_err && !w.coord.crash_requested && !was_final.iter().all(|b| *b) && w.violations.is_empty() {
+        if crate::mon_psbt::sigs_follow_announced_sighash(w, &before) {
+            let mall = v % 6 == 1;
+            let mut free = before.clone();
+            #[allow(deprecated)]
+            let r = guard(w, "psbt::finalize (free function)", actor, |_| if mall { miniscript::psbt::finalize_mall(&mut free, &secp) } else { miniscript::psbt::finalize(&mut free, &secp) });
+            w.stats.probe("free_function_finalize_checked");
+            let name = if mall { "psbt::finalize_mall" } else { "psbt::finalize" };
+            match r {
+                Some(Err(e)) => {
+                    let i = err_index(&e).unwrap_or(0).min(n - 1);
+                    let prop = if w.mon.on("C02") { "C02" } else { "C14" };
+                    let cls = format!("L2-finalize:{:?}:free-function", w.env.inputs[i].kind);
+                    raise_class(
+                        w,
+                        prop,
+                        "L2-finalize",
+                        cls,
+                        format!("{} refuses a PSBT ({}) that {} finalises completely and whose signatures all carry the announced sighash type; input {}: {} (sighash field {:?})", name, e, how, i, w.env.inputs[i].spec.text, before.inputs[i].sighash_type.map(|t| t.to_u32())),
+                        actor,
+                    );
+                    return false;
+                }
+                Some(Ok(())) => {
+                    if free != *psbt {
+                        raise(w, "C14", "I4b", format!("{} (free function) and {} give different PSBTs", name, how), actor);
+                    }
+                }
+                None => {}
+            }
+        }
+    }
     // ... and an input that was filled in from a plan must finalise once that plan can be completed
     // from the PSBT's contents (the plan's own path; other paths need fields the plan did not record)
     if w.mon.on("C02") && !w.mon.corruption && actor == "coord" && matches!(v % 6, 1 | 4) && !w.coord.crash_requested && w.violations.is_empty() {
